@@ -784,6 +784,10 @@ func genCFF(t *rapid.T, n int, cidKeyed bool, o Opts, c *Case, fl *filler) *cff.
 			} else {
 				cur += 1 + fl.intn(2)*fl.intn(3)
 			}
+			if room := 65535 - (n - 1 - i); cur > room {
+				// CIDs are 16-bit numbers: the remaining glyphs need one each
+				cur = room
+			}
 			out.GIDToCID[i] = cid.CID(cur)
 		}
 	}
